@@ -286,6 +286,54 @@ func c17Worker(c *core.Collector, x *Ctx) {
 		}
 	})
 	c.Count("single_packet_layouts", int64(len(jobs)))
+	// (1d) modular tails: behind the first packet there are EXACTLY k*65536 more bytes (a length comparison carried out in
+	// 16 bits takes "body length + k*65536 bytes remain" for "exactly the body remains" and swallows the rest of the buffer),
+	// also k*256 and k*65536 +-1
+	{
+		var tails []int
+		for _, k := range []int{1, 2, 3} {
+			tails = append(tails, k*65536-1, k*65536, k*65536+1)
+		}
+		tails = append(tails, 256, 512, 4096, 32768)
+		core.ParallelFor(len(tails)*16*3, ncpu(), func(i int) {
+			r := core.NewRand(c.Seed, "c17mod", uint64(i))
+			tail := tails[i%len(tails)]
+			dt := i / len(tails) % 16
+			pl := []int{0, 950, 65535}[i/len(tails)/16]
+			k := c17Gen(r, dt, pl)
+			pks := []ref.RTP{k}
+			stream := k.Build()
+			// fill the tail with whole packets: the last one sized so that the total is exact
+			left := tail
+			for left > 0 {
+				q := c17Gen(r, r.Intn(16), 0)
+				h := len(q.Build())
+				if left < h {
+					// too small for one more packet header: raw bytes that are not a packet start (classified short/unqualified)
+					stream = append(stream, make([]byte, left)...)
+					break
+				}
+				want := left - h
+				if want > 65535 {
+					want = core.Pick(r, []int{65535, 60000, 950})
+				} else if left-h-want != 0 {
+					want = left - h
+				}
+				if rest := left - h - want; rest > 0 && rest < 40 { // leave room for a last whole packet
+					want -= 40
+					if want < 0 {
+						want = 0
+					}
+				}
+				q.Payload = r.Bytes(want)
+				pks = append(pks, q)
+				stream = append(stream, q.Build()...)
+				left -= h + want
+			}
+			run(stream, pks, true, "modular-tail")
+			c.Count("modular_tail_streams", 1)
+		})
+	}
 	// (1c) one long stream: 4000 packets of every type and size class decoded with ONE Packet object (and with fresh ones)
 	{
 		r := core.NewRand(c.Seed, "c17long", 0)
@@ -426,4 +474,5 @@ func c17Worker(c *core.Collector, x *Ctx) {
 	c.Floor("decode_steps", 50000)
 	c.Floor("streams_decoded_with_one_reused_packet", 1000)
 	c.Floor("delta_stream_packets", 5000)
+	c.Floor("modular_tail_streams", 100)
 }
